@@ -191,7 +191,11 @@ static sketch_t& get(int id) {
   return *it->second;
 }
 
+struct Case { size_t n; int pos; int val; bool stream; std::vector<uint8_t> img; size_t shift = 0; };
+static std::vector<std::string> run_cases_forked(const std::vector<Case>& cases, const std::string* full_content);
+
 static std::string checks_for_image(const sketch_t& sk, const std::vector<uint8_t>& img, bool compact, bool live) {
+
   std::ostringstream o;
   const std::string c0 = safe_content(sk);
   if (live) {
@@ -233,7 +237,15 @@ static std::string checks_for_image(const sketch_t& sk, const std::vector<uint8_
     if (ser_stream(rb, compact) != ser_bytes(rb, compact)) reser = "diff:stream-vs-bytes";
   } catch (const std::exception&) { if (deser == "ok") deser = "throw:b"; }
   o << "pos=" << pos << " deser=" << deser;
-  if (live) o << " api=" << api;
+  if (live) {
+    o << " api=" << api;
+    // the image behind a header of 1 / 13 bytes in the caller's buffer (as produced by serialize_compact(h)): unaligned
+    std::vector<Case> cs;
+    const size_t shifts[] = {1, 13};
+    for (size_t sh : shifts) { Case c; c.n = img.size(); c.pos = -1; c.val = 0; c.stream = false; c.img = img; c.shift = sh; cs.push_back(c); }
+    std::vector<std::string> r = run_cases_forked(cs, &c0);
+    o << " unal=" << (r[0] == "A=" && r[1] == "A=" ? std::string("ok") : (r[0] != "A=" ? r[0] : r[1]));
+  }
   o << " reser=" << reser << " resers=" << resers;
   return o.str();
 }
@@ -251,13 +263,13 @@ static std::string probe_usable(sketch_t& sk) {
 }
 
 // outcome of deserializing `n` bytes: T | A= | A! | A (corruption mode) | alloc_cap ; "+leak" appended on imbalance
-static std::string run_case(const uint8_t* data, size_t n, bool stream, const std::string* full_content) {
+static std::string run_case(const uint8_t* data, size_t n, bool stream, const std::string* full_content, size_t shift = 0) {
   std::string out;
   const long live0 = g_live;
   g_cap_hit = false;
   {
     uint8_t* blk = nullptr; uint8_t* buf = nullptr;
-    if (!stream) { blk = static_cast<uint8_t*>(malloc(n ? n : 8)); buf = n ? blk : blk + 8; if (n) memcpy(buf, data, n); }
+    if (!stream) { blk = static_cast<uint8_t*>(malloc(n ? n + shift : 8)); buf = n ? blk + shift : blk + 8; if (n) memcpy(buf, data, n); }
     try {
       if (stream) {
         std::string s(reinterpret_cast<const char*>(data), n);
@@ -277,8 +289,6 @@ static std::string run_case(const uint8_t* data, size_t n, bool stream, const st
   if (g_live != live0) out += "+leak";
   return out;
 }
-
-struct Case { size_t n; int pos; int val; bool stream; std::vector<uint8_t> img; };
 
 static std::string classify_death(int status, const std::string& errfile) {
   std::string err;
@@ -354,7 +364,7 @@ static std::vector<std::string> run_cases_forked(const std::vector<Case>& cases,
         if (write(pfd[1], m, k) != k) _exit(3);
         alarm(CASE_TIMEOUT_S);
         const Case& c = cases[i];
-        std::string o = run_case(c.img.data(), c.n, c.stream, full_content);
+        std::string o = run_case(c.img.data(), c.n, c.stream, full_content, c.shift);
         alarm(0);
         std::string line = "E " + std::to_string(i) + " " + o + "\n";
         if (write(pfd[1], line.data(), line.size()) != (ssize_t)line.size()) _exit(3);
@@ -459,6 +469,18 @@ static std::string step(const std::vector<std::string>& w) {
       u2.update(restored); u2.update(other);
       sketch_t r1 = u1.get_result(ty), r2 = u2.get_result(ty);
       a = content(r1) + " # " + api_numbers(r1); b = content(r2) + " # " + api_numbers(r2);
+      if (compact && sk.sketch_impl->getCurMode() == SET) {
+        // A compact set image does not preserve the table order (documented freedom), and the union feeds a SET-mode
+        // source to its gadget coupon by coupon in table order: the HIP accumulator of the result (an order-dependent
+        // estimator by design) is then not a function of the logical content. Compare everything but HIP / estimates.
+        auto mask = [](const std::string& c) {
+          std::string o = c.substr(0, c.find(" # "));
+          size_t p = o.find(" hip=");
+          if (p != std::string::npos) { size_t e = o.find(' ', p + 1); o.erase(p, e - p); }
+          return o;
+        };
+        a = mask(a); b = mask(b);
+      }
     }
     if (a == b) return "CONT eq";
     size_t i = 0; while (i < a.size() && i < b.size() && a[i] == b[i]) ++i;
